@@ -4,8 +4,7 @@ CONSTANTS
   WsCount = 8
   PreLayouts = 2
 INVARIANTS
-  Inv_WF
-  Inv_Strip
+  Inv_Layout
   Inv_Norm
   Inv_Inj
 POSTCONDITION Emit
